@@ -1,5 +1,6 @@
 pub mod c01;
 pub mod c03;
+pub mod c04;
 pub mod c05;
 pub mod c06;
 pub mod c07;
@@ -17,6 +18,7 @@ pub fn dispatch(name: &str, args: &[String]) -> i32 {
 		"selftest" => selftest::run(args),
 		"c01" => c01::run(args),
 		"c03" => c03::run(args),
+		"c04" => c04::run(args),
 		"c05" => c05::run(args),
 		"c06" => c06::run(args),
 		"c07" => c07::run(args),
@@ -47,6 +49,7 @@ fn replay(args: &[String]) -> i32 {
 	match prop.as_str() {
 		"c01" => c01::replay(&v["replay"]),
 		"c03" => c03::replay(&v["replay"]),
+		"c04" => c04::replay(&v["replay"]),
 		"c05" => c05::replay(&v["replay"]),
 		"c06" => c06::replay(&v["replay"]),
 		"c07" => c07::replay(&v["replay"]),
